@@ -89,6 +89,43 @@ func (c *Ctx) circleSeeds(fnName string) ([][]string, token.Pos, error) {
 		return nil, 0, err
 	}
 	if out == nil {
+		// the seeds may live in a package-level variable the constructor reads: a list of lists of strings among the
+		// immutable globals the function loads
+		if fn := c.fn("op", fnName); fn != nil {
+			allInstrs(fn, func(in ssa.Instruction) {
+				ld, ok := in.(*ssa.UnOp)
+				if !ok || ld.Op != token.MUL || out != nil {
+					return
+				}
+				g, ok := ld.X.(*ssa.Global)
+				if !ok {
+					return
+				}
+				lv, ok := c.globalTable(g).cv.(*ListV)
+				if !ok {
+					return
+				}
+				var seeds [][]string
+				for _, el := range lv.Elems {
+					il, ok := el.(*ListV)
+					if !ok {
+						return
+					}
+					var slot []string
+					for _, sv := range il.Elems {
+						str, ok := asStr(sv)
+						if !ok {
+							return
+						}
+						slot = append(slot, str)
+					}
+					seeds = append(seeds, slot)
+				}
+				out, pos = seeds, g.Pos()
+			})
+		}
+	}
+	if out == nil {
 		return nil, 0, fmt.Errorf("no [][]string seed literal in op.%s", fnName)
 	}
 	return out, pos, nil
@@ -279,7 +316,7 @@ func ruleTabCircle(c *Ctx) {
 		model.pos[minor] = pos
 	}
 
-	sigTab, _, _ := c.mapTable("op", "map[string]int", "keyStringSignatures")
+	sigTab, _, _ := c.keySignatureTable()
 	supported := map[string]bool{}
 	if sigTab != nil {
 		for _, e := range sigTab.Entries {
@@ -428,6 +465,102 @@ func ruleTabCircle(c *Ctx) {
 				}
 			}
 			c.check(problem == "", "op.CircleOfFifth."+m+"|refusals", c.pos(mfn.Pos()), fname(mfn), "refuses a key only when the circle lookup does", fname(mfn)+": "+problem+": keys that are on the circle are refused by an extra test (e.g. the two seven-accidental keys)")
+			// ... and what it hands back on success is the member the lookup found, as it is (every spelling of the slot;
+			// picking one of them makes the answer depend on which spelling of the source came first)
+			c.site(1)
+			tr := &tracer{c: c, stop: func(f *ssa.Function) bool { return f.Name() == "find" || isExportedFn(f) }}
+			whole := ""
+			isFound := func(v ssa.Value) bool {
+				ex, ok := v.(*ssa.Extract)
+				if !ok || ex.Index != 0 {
+					return false
+				}
+				call, ok := ex.Tuple.(*ssa.Call)
+				if !ok {
+					return false
+				}
+				n := calleeName(&call.Call)
+				return n == "op.CircleOfFifth.find" || strings.HasPrefix(n, "op.CircleOfFifth.")
+			}
+			// results kept in cells (a return from inside a range-over-func body writes them there): whatever is stored
+			// into the member's cell, here or in a loop-body closure, is the found member
+			for _, r := range returnsOf(mfn) {
+				ld, ok := r.Results[0].(*ssa.UnOp)
+				if !ok || ld.Op != token.MUL {
+					continue
+				}
+				cell, ok := ld.X.(*ssa.Alloc)
+				if !ok {
+					continue
+				}
+				var stored []lval
+				for _, ref := range *cell.Referrers() {
+					switch x := ref.(type) {
+					case *ssa.Store:
+						if x.Addr == ssa.Value(cell) {
+							stored = append(stored, lval{x.Val, mfn, nil})
+						}
+					case *ssa.MakeClosure:
+						cf, _ := x.Fn.(*ssa.Function)
+						for i, b := range x.Bindings {
+							if b != ssa.Value(cell) || cf == nil || i >= len(cf.FreeVars) {
+								continue
+							}
+							for _, fr := range *cf.FreeVars[i].Referrers() {
+								if st, ok := fr.(*ssa.Store); ok && st.Addr == ssa.Value(cf.FreeVars[i]) {
+									stored = append(stored, lval{st.Val, cf, nil})
+								}
+							}
+						}
+					}
+				}
+				for _, sv := range stored {
+					for _, alt := range tr.alts(sv, 0) {
+						v := alt.leaf.v
+						if l2, ok := v.(*ssa.UnOp); ok && l2.Op == token.MUL {
+							// a load of the local the found member is kept in
+							if al, ok := l2.X.(*ssa.Alloc); ok {
+								okAll := false
+								for _, ref := range *al.Referrers() {
+									if st, ok := ref.(*ssa.Store); ok && st.Addr == ssa.Value(al) {
+										okAll = isFound(st.Val)
+									}
+								}
+								if okAll {
+									continue
+								}
+							}
+							if fv, ok := l2.X.(*ssa.FreeVar); ok {
+								_ = fv
+								continue // the found member's cell, read inside the loop body
+							}
+						}
+						if isFound(v) || isUnwrittenLocal(v) {
+							continue
+						}
+						whole = "something else than the member found on the circle is stored as the result (" + c.pos(sv.fn.Pos()) + ")"
+					}
+				}
+			}
+			for _, r := range returnsOf(mfn) {
+				if !isNilConst(retVal(r, len(r.Results)-1)) {
+					continue
+				}
+				for _, alt := range tr.alts(lval{retVal(r, 0), mfn, nil}, 0) {
+					ex, ok := alt.leaf.v.(*ssa.Extract)
+					found := false
+					if ok && ex.Index == 0 {
+						if call, ok := ex.Tuple.(*ssa.Call); ok {
+							n := calleeName(&call.Call)
+							found = n == "op.CircleOfFifth.find" || strings.HasPrefix(n, "op.CircleOfFifth.")
+						}
+					}
+					if !found {
+						whole = "a successful return hands back something else than the member found on the circle (at " + c.pos(r.Pos()) + ")"
+					}
+				}
+			}
+			c.check(whole == "", "op.CircleOfFifth."+m+"|whole-member", c.pos(mfn.Pos()), fname(mfn), "returns the member the lookup found, unchanged", fname(mfn)+": "+whole+": the result no longer lists every spelling of the target")
 		}
 		w := want[m]
 		good := fc.flipMode == w.flip && fc.deltaByMode[false] == w.dMaj && fc.deltaByMode[true] == w.dMin
@@ -794,9 +927,52 @@ func ruleTabAttrs(c *Ctx) {
 			return
 		}
 	}
-	// prefix table
-	// prefix per quality: whatever GenerateAttributes uses to name an attribute (a table or a function), folded on every quality
-	prefix, ppos, how := c.attrNamePrefixes()
+	// what chord.GenerateAttributes itself returns for that bound, when it folds: each attribute carries one of the yielded
+	// intervals (in that order, only whole qualities left out) under the name <Quality><number>
+	prefix, ppos, how := map[string]string(nil), "", ""
+	if gen, ok := c.generateAttributesByFolding(maxD); ok && folded {
+		if gf := c.fn("chord", "GenerateAttributes"); gf != nil {
+			ppos = c.pos(gf.Pos())
+		}
+		how = fmt.Sprintf("GenerateAttributes(%d) folded: %d attributes", maxD, len(gen))
+		prefix = map[string]string{}
+		problem := ""
+		named := map[string]bool{}
+		for _, g := range gen {
+			named[g.quality] = true
+		}
+		i := 0
+		for _, y := range yielded {
+			if !named[y.name] {
+				continue
+			}
+			if i >= len(gen) || gen[i].quality != y.name || gen[i].n != y.n {
+				problem = fmt.Sprintf("the generated list does not follow note.GenerateDegrees: position %d should carry %s %d", i, y.name, y.n)
+				break
+			}
+			num := fmt.Sprint(y.n)
+			if !strings.HasSuffix(gen[i].name, num) {
+				problem = fmt.Sprintf("the attribute for %s %d is named %q, which does not end in the number", y.name, y.n, gen[i].name)
+				break
+			}
+			pf := strings.TrimSuffix(gen[i].name, num)
+			if prev, seen := prefix[y.name]; seen && prev != pf {
+				problem = fmt.Sprintf("attributes of quality %s are named with %q and with %q", y.name, prev, pf)
+				break
+			}
+			prefix[y.name] = pf
+			i++
+		}
+		if problem == "" && i != len(gen) {
+			problem = fmt.Sprintf("%d attributes are generated for %d yielded intervals of the named qualities", len(gen), i)
+		}
+		c.site(1)
+		c.check(problem == "", "chord.GenerateAttributes|folded", ppos, "chord.GenerateAttributes", how+": one per yielded interval of a named quality, in order, each carrying its interval", "chord.GenerateAttributes: "+problem)
+		c.genAttrsFolded = problem == ""
+	} else {
+		// prefix per quality: whatever GenerateAttributes uses to name an attribute (a table or a function), folded on every quality
+		prefix, ppos, how = c.attrNamePrefixes()
+	}
 	if prefix == nil {
 		c.undec("chord.GenerateAttributes|prefix", ppos, "chord.GenerateAttributes", how)
 		return
@@ -920,6 +1096,49 @@ func (c *Ctx) generateDegreesOrder() []string {
 // TAB-DIATONIC
 
 func (c *Ctx) diatonicTables(fnName string) (major, minor []string, pos token.Pos, err error) {
+	// first at the level of what callers see: Triads() / Sevenths() folded for a major and a minor scale (the notes stay
+	// unknown, the names are what is read); wherever the name tables live and however they are handed to generate
+	if api := c.fn("op", map[string]string{"triadNames": "DiatonicChorderImpl.Triads", "seventhNames": "DiatonicChorderImpl.Sevenths"}[fnName]); api != nil {
+		// ... built the way callers build it: NewDiatonicChorder(NewScale(key)) for C and for Am, all folded in one
+		// memory; besides the names, chord i must stand on note i of the scale
+		if mj, okMj := c.diatonicThroughConstructor(api, "C"); okMj != nil {
+			if mn, okMn := c.diatonicThroughConstructor(api, "Am"); okMn != nil {
+				if c.diatonicViaAPI == nil {
+					c.diatonicViaAPI = map[string]bool{}
+				}
+				c.diatonicViaAPI[fnName] = true
+				if c.diatonicPaired == nil {
+					c.diatonicPaired = map[string]bool{}
+				}
+				c.diatonicPaired[fnName] = *okMj && *okMn
+				return mj, mn, api.Pos(), nil
+			}
+		}
+		fold := func(minor bool) []string {
+			scale := &StructV{Fields: map[string]Val{"Key": &StructV{Fields: map[string]Val{"Minor": &CVal{V: constant.MakeBool(minor), T: types.Typ[types.Bool]}}}}}
+			recv := fval{fields: map[string]fval{"scale": {cvptr: scale}}}
+			r, err := c.newFolder().foldMethod(api, recv, nil)
+			if err != nil || r.fields == nil {
+				return nil
+			}
+			var out []string
+			for i := 0; i < 7; i++ {
+				e, ok := r.fields[fmt.Sprintf("#%d", i)]
+				if !ok || e.fields == nil || e.fields["Name"].k == nil || e.fields["Name"].k.Kind() != constant.String {
+					return nil
+				}
+				out = append(out, constant.StringVal(e.fields["Name"].k))
+			}
+			return out
+		}
+		if mj, mn := fold(false), fold(true); mj != nil && mn != nil {
+			if c.diatonicViaAPI == nil {
+				c.diatonicViaAPI = map[string]bool{}
+			}
+			c.diatonicViaAPI[fnName] = true
+			return mj, mn, api.Pos(), nil
+		}
+	}
 	fd, p := c.astFunc("op", "DiatonicChorderImpl."+fnName)
 	if fd == nil {
 		return nil, nil, 0, fmt.Errorf("op.DiatonicChorderImpl.%s not found", fnName)
@@ -1103,6 +1322,13 @@ func ruleTabDiatonic(c *Ctx) {
 		}
 	})
 	c.site(1)
+	if paired, decided := c.diatonicPaired["triadNames"], c.diatonicPaired != nil; decided && len(c.diatonicPaired) == 2 {
+		// decided on what Triads() / Sevenths() return for C and Am: chord i stands on note i of the scale
+		both := paired && c.diatonicPaired["seventhNames"]
+		c.check(both, "op.DiatonicChorderImpl.generate|pairing", c.pos(gen.Pos()), fname(gen), "chord i of Triads() / Sevenths() stands on note i of the scale (folded for C and Am)", "the diatonic chords are not paired with the scale degrees by position: chord i of Triads() / Sevenths() does not stand on note i of the scale")
+		c.check(both, "op.DiatonicChorderImpl.generate|notes", c.pos(gen.Pos()), fname(gen), "the roots are the scale's notes (folded for C and Am)", "the roots of the diatonic chords are not the scale's notes")
+		return
+	}
 	c.check(n >= 3 && len(idx) == 1, "op.DiatonicChorderImpl.generate|pairing", c.pos(gen.Pos()), fname(gen), "scale note i, name i and result i use one index", fmt.Sprintf("generate indexes its arrays with %d different index values over %d accesses: names are no longer paired with scale degrees by position", len(idx), n))
 	// the names come from the parameter, the notes from dc.scale.Notes
 	okNotes := false
@@ -1351,13 +1577,14 @@ func ruleTabLexnames(c *Ctx) {
 		return
 	}
 	// letters the printer emits
-	if m, v, _ := c.mapTable("note", "map[note.Name]string", "nameStringMap"); m != nil {
+	if m, vname, _ := c.printedTable("note", "map[note.Name]string", "nameStringMap", "Name.String", "Name", "UnknownName"); m != nil {
+		v := vname
 		for _, e := range m.Entries {
 			s, _ := asStr(e.V)
 			c.site(1)
 			rs := []rune(s)
 			good := len(rs) == 1 && lt.runeToken[rs[0]] == "SYLLABLE"
-			c.check(good, "lexer|letter|"+s, c.pos(e.Pos), "", "letter "+s+" lexes as SYLLABLE", fmt.Sprintf("the printer writes %q for a scale note (note.%s) but the lexer does not read it as one SYLLABLE", s, v.Name()))
+			c.check(good, "lexer|letter|"+s, c.pos(e.Pos), "", "letter "+s+" lexes as SYLLABLE", fmt.Sprintf("the printer writes %q for a scale note (note.%s) but the lexer does not read it as one SYLLABLE", s, v))
 		}
 	}
 	if m, v, _ := c.printedTable("op", "map[op.Accidental]string", "accidentalStringMap", "Accidental.String", "Accidental", "UnknownAccidental"); m != nil {
@@ -1812,7 +2039,7 @@ func captureSets1(re *syntax.Regexp) ([][]string, error) {
 
 func ruleTabRegex(c *Ctx) {
 	var letters, accs []string
-	if m, _, _ := c.mapTable("note", "map[note.Name]string", "nameStringMap"); m != nil {
+	if m, _, _ := c.printedTable("note", "map[note.Name]string", "nameStringMap", "Name.String", "Name", "UnknownName"); m != nil {
 		for _, e := range m.Entries {
 			s, _ := asStr(e.V)
 			letters = append(letters, s)
@@ -1839,6 +2066,19 @@ func ruleTabRegex(c *Ctx) {
 	} {
 		c.site(1)
 		key := rx.pkg + "." + rx.name
+		if rx.name == "keyRegex" {
+			// what ParseKey accepts, decided by folding it: the pattern (if there still is one) is how, not what
+			if problem, n, ok := c.parseKeyByFolding(); ok {
+				pos := token.NoPos
+				if fn := c.fn("op", "ParseKey"); fn != nil {
+					pos = fn.Pos()
+				}
+				c.check(problem == "", key+"|anchored", c.pos(pos), "", fmt.Sprintf("decided by folding ParseKey on %d spellings: nothing is accepted around the spelling", n), "op.ParseKey: "+problem)
+				c.site(1)
+				c.check(problem == "", key, c.pos(pos), "", fmt.Sprintf("decided by folding ParseKey on %d spellings: exactly what the printers produce is read", n), "op.ParseKey: "+problem)
+				continue
+			}
+		}
 		pat, pos, ok := c.regexPattern(rx.pkg, rx.name)
 		if !ok {
 			c.undec(key, c.pos(pos), "", "pattern is not a constant passed to regexp.MustCompile")
@@ -1876,7 +2116,17 @@ func ruleTabSearch(c *Ctx) {
 	}
 	need := []string{"MajorOrPerfectCoerceDegree", "MinorOrDiminishedCoerceDegree", "AugmentedCoerceDegree"}
 	n := 0
-	for _, ci := range callsIn(fn) {
+	// decided on the whole domain by folding (21 x 21 spellings x both orders): which lists the search walks, and where
+	// they are written down, no longer matters
+	calls := callsIn(fn)
+	if problem, cnt, ok := c.scaleDegreeByFolding(fn); ok && problem == "" {
+		for i := 0; i < 2; i++ {
+			c.site(1)
+			c.ok(fmt.Sprintf("op.ScaleNote.GetDegree|search|%d", i), c.pos(fn.Pos()), fname(fn), fmt.Sprintf("decided by folding GetDegree on %d calls: every searched class is found", cnt))
+		}
+		calls = nil
+	}
+	for _, ci := range calls {
 		// a call (of a local closure or of a helper) that is handed a list of notation classes to search
 		args := ci.Common().Args
 		if len(args) == 0 {
@@ -2221,4 +2471,145 @@ func (c *Ctx) refusedRunes(fn *ssa.Function) (string, bool) {
 		}
 	}
 	return string(refused), true
+}
+
+// diatonicThroughConstructor folds op.NewScale on the key, op.NewDiatonicChorder on that scale and the given method
+// (Triads / Sevenths) on that chorder, all in one memory. It returns the seven names and whether chord i stands on
+// note i of the scale; nil, nil when something does not fold.
+func (c *Ctx) diatonicThroughConstructor(api *ssa.Function, key string) ([]string, *bool) {
+	newScale, ctor := c.fn("op", "NewScale"), c.fn("op", "NewDiatonicChorder")
+	if newScale == nil || ctor == nil || len(api.Params) != 1 {
+		return nil, nil
+	}
+	names := c.enumConsts("note", "Name")
+	accs := c.enumConsts("op", "Accidental")
+	kv := fval{fields: map[string]fval{"Name": {k: constant.MakeInt64(names[key[:1]])}, "Accidental": {k: constant.MakeInt64(accs["Natural"])}, "Minor": {k: constant.MakeBool(strings.HasSuffix(key, "m"))}}}
+	fd := c.newFolder()
+	fd.maxSteps = 40000
+	fd.maxDepth = 10
+	sr, err := fd.foldCall(newScale, []fval{kv})
+	if err != nil || len(sr.tuple) != 2 || !sr.tuple[1].isNil {
+		return nil, nil
+	}
+	heap := fd.heap
+	fd.steps = 0
+	cr, err := fd.foldCallEnv(ctor, []fval{sr.tuple[0]}, nil, heap)
+	if err != nil || !cr.known() {
+		return nil, nil
+	}
+	recv := cr
+	if _, isPtr := api.Params[0].Type().Underlying().(*types.Pointer); !isPtr {
+		recv = fd.deref(cr)
+		if !recv.known() {
+			return nil, nil
+		}
+	}
+	fd.steps = 0
+	r, err := fd.foldCallEnv(api, []fval{recv}, nil, heap)
+	if err != nil || r.fields == nil {
+		return nil, nil
+	}
+	scale := fd.deref(sr.tuple[0])
+	if scale.fields == nil || scale.fields["Notes"].fields == nil {
+		return nil, nil
+	}
+	var out []string
+	paired := true
+	for i := 0; i < 7; i++ {
+		e, ok := r.fields[fmt.Sprintf("#%d", i)]
+		if !ok || e.fields == nil || e.fields["Name"].k == nil || e.fields["Name"].k.Kind() != constant.String {
+			return nil, nil
+		}
+		out = append(out, constant.StringVal(e.fields["Name"].k))
+		got, want := fd.deref(e.fields["Note"]), fd.deref(scale.fields["Notes"].fields[fmt.Sprintf("#%d", i)])
+		if got.fields == nil || want.fields == nil || got.fields["Name"].k == nil || want.fields["Name"].k == nil || got.fields["Accidental"].k == nil || want.fields["Accidental"].k == nil {
+			return nil, nil
+		}
+		if !constant.Compare(got.fields["Name"].k, token.EQL, want.fields["Name"].k) || !constant.Compare(got.fields["Accidental"].k, token.EQL, want.fields["Accidental"].k) {
+			paired = false
+		}
+	}
+	return out, &paired
+}
+
+type generatedAttr struct {
+	name    string
+	quality string
+	n       int
+}
+
+// generateAttributesByFolding folds chord.GenerateAttributes on the bound of the go:generate directive and returns the
+// attributes it gives (name, and the quality and number of the interval each carries).
+func (c *Ctx) generateAttributesByFolding(maxD int64) ([]generatedAttr, bool) {
+	fn := c.fn("chord", "GenerateAttributes")
+	if fn == nil || len(fn.Params) != 1 {
+		return nil, false
+	}
+	dnames := c.enumConsts("note", "DegreeName")
+	nameOf := map[int64]string{}
+	for k, v := range dnames {
+		nameOf[v] = k
+	}
+	fd := c.newFolder()
+	fd.maxSteps = 400000
+	fd.maxDepth = 10
+	r, err := fd.foldCall(fn, []fval{{k: constant.MakeInt64(maxD), t: fn.Params[0].Type()}})
+	l, isList := r.cv.(*ListV)
+	if err != nil || !isList {
+		if os.Getenv("CRDCHECK_DEBUG") != "" {
+			fmt.Fprintf(os.Stderr, "generateAttributesByFolding: %v %s\n", err, r.String())
+		}
+		return nil, false
+	}
+	var out []generatedAttr
+	for _, e := range l.Elems {
+		sv, ok := e.(*StructV)
+		if !ok {
+			return nil, false
+		}
+		nm, ok1 := asStr(sv.Fields["Name"])
+		dv, ok2 := sv.Fields["Degree"].(*StructV)
+		if !ok1 || !ok2 {
+			return nil, false
+		}
+		qv, okq := dv.Fields["Name"].(*CVal)
+		nv, okn := dv.Fields["Value"].(*CVal)
+		if !okq || !okn {
+			return nil, false
+		}
+		q, _ := constant.Int64Val(qv.V)
+		n, _ := constant.Int64Val(nv.V)
+		out = append(out, generatedAttr{nm, nameOf[q], int(n)})
+	}
+	return out, true
+}
+
+// generateAttributesDecided: chord.GenerateAttributes folds on the go:generate bound and gives one attribute per yielded
+// interval of a named quality, in order, named <prefix><number> and carrying that interval (the check of TAB-ATTRS,
+// recomputed when WIRE runs without it).
+func (c *Ctx) generateAttributesDecided() bool {
+	if c.genAttrsFolded {
+		return true
+	}
+	gen, ok := c.generateAttributesByFolding(20)
+	yielded, folded := c.generateDegreesByFolding(20)
+	if !ok || !folded {
+		return false
+	}
+	named := map[string]bool{}
+	for _, g := range gen {
+		named[g.quality] = true
+	}
+	i := 0
+	for _, y := range yielded {
+		if !named[y.name] {
+			continue
+		}
+		if i >= len(gen) || gen[i].quality != y.name || gen[i].n != y.n || !strings.HasSuffix(gen[i].name, fmt.Sprint(y.n)) {
+			return false
+		}
+		i++
+	}
+	c.genAttrsFolded = i == len(gen)
+	return c.genAttrsFolded
 }
